@@ -76,12 +76,21 @@ def exclTags (ps : PState) (toks : List String) : List String × Bool :=
     let f32 := incr && oneCell oa a && oneCell ob b && !isCmp
     -- F33: unsafe scalar-left comparison on a one-element tensor: result written to the scalar's temporary
     let f33 := isCmp && uns && a.startsWith "#" && (match ob with | some (_, d) => d.win.len == 1 | none => false)
+    let tens := (match oa with | some (_, d) => [d] | none => []) ++ (match ob with | some (_, d) => [d] | none => [])
+    let incrD := (opts.find? (·.startsWith "incr=")).bind (fun t => (ps.obj (t.drop 5).toString).map (·.2))
+    let f35 := tens.any (fun t => Excl_reuseOrderFlip t reuse || Excl_reuseOrderFlip t incrD)
+    let f36 := isCmp && tens.any (fun t => Excl_rowMajorResult t (reuse.isSome) uns)
     ((if op == "div" && (dt == some "f32" || dt == some "f64") then ["F30"] else []) ++
      (if f31 then ["F31"] else []) ++ (if f10 then ["F10"] else []) ++ (if f32 then ["F32"] else []) ++
-     (if f33 then ["F33"] else []), true)
+     (if f33 then ["F33"] else []) ++ (if f35 then ["F35"] else []) ++ (if f36 then ["F36"] else []), true)
   | "un" :: op :: _ :: rest =>
     -- F34: Apply with a reuse / incr tensor maps the function over the destination's own data
-    ((if op == "apply" && rest.any (fun t => t.startsWith "reuse=" || t.startsWith "incr=") then ["F34"] else []), true)
+    let t := (toks[2]?).bind (fun v => (ps.obj v).map (·.2))
+    let dst := (rest.find? (fun t => t.startsWith "reuse=" || t.startsWith "incr=")).bind
+      (fun t => (ps.obj ((t.splitOn "=").getLast!)).map (·.2))
+    let f35 := match t with | some t => Excl_reuseOrderFlip t dst | none => false
+    ((if op == "apply" && rest.any (fun t => t.startsWith "reuse=" || t.startsWith "incr=") then ["F34"] else []) ++
+     (if f35 then ["F35"] else []), true)
   | ["calcS", v, spec] =>
     match ps.obj v, parseSlList spec with
     | some (_, t), some sls =>
